@@ -1,4 +1,5 @@
 """C18 - IniFile and TabularDataFile persist exactly what was set or written (spec/IniCsv.tla)."""
+import concurrent.futures as cf
 import glob
 import json
 import os
@@ -6,7 +7,7 @@ import subprocess
 import vlib
 
 META = {
-    "engine": "IniCsv.tla",
+    "engine": "IniCsv.tla, CmdArgs.tla",
     "technique": "TLC exhaustive enumeration over IniCsv.tla of INI texts (line alphabet x newline style x final newline) with "
                  "set() histories, and of CSV tables over a cell alphabet, with parser/requirement/reference-writer and "
                  "writer/reader agreement checked on the specification; every case executed on the real IniFile (explicit "
@@ -22,14 +23,31 @@ META = {
                   "enumerates every table up to the configured size over strings with separators/quotes/blanks and "
                   "numbers in all %.15g shapes and checks reader(writer(table)) = table on the specification. Every case "
                   "is executed on the real classes; TLC then evaluates the requirement on the bytes the real code wrote "
-                  "and on the values/rows a fresh object returned.",
+                  "and on the values/rows a fresh object returned. Growth: every sequence of up to 3 calls out of 15 (19) on an "
+                  "IniFile object opened on 7 (10) files (existing / missing / empty, byte order mark, CR LF without final newline, "
+                  "sections and keys given twice, Qt array, shouldwrite = false), with the reference writer checked against the "
+                  "whole write requirement (values, order, no key nobody set, sections kept); every table of up to 4 cells "
+                  "over 7 (11) cell kinds incl. short rows for 7 (11) option sets of the writer, with reader(writer) = table by "
+                  "inference where the documentation says it is inferable; every file of up to 3 (4) lines per dialect alphabet x "
+                  "LF / CR LF x final newline x byte order mark, with the law that these do not change what is read; every "
+                  "command line of up to 4 tokens over 7 (15) tokens x 2 specification strings with all laws, followed by every "
+                  "ascending pair of queries. Every case is executed on the real classes and the logged executions are validated "
+                  "by TLC.",
     "level_note": "Bounded (constants in spec/MC_IniCsv_*.cfg); longer texts/edit histories/tables only through the recorded "
                   "random executions. Numbers are decimal digit strings in the specification: that the double nearest to a "
                   "<=15-digit decimal prints back to the same 15 digits is a property of IEEE double/libc the specification "
                   "does not re-derive; cells are compared as their %.15g text. Strings that look like numbers to the reader "
                   "(digits, '-', '.', 'e' only - e.g. \"12\", \"-\", \".\", \"1-2\") are outside the generated alphabet: CSV carries "
                   "no type, the reader infers it. Duplicate keys within a section are generated only in the exhaustive part "
-                  "(last one wins). Trusted: TLC, clang ASan/LSan, POSIX read-back, strtod/snprintf in the harness.",
+                  "(last one wins). Left unconstrained because the documentation is silent (generated only for memory safety or not at "
+                  "all): what plain names address in a file with sections and no top-level entries before section() is called, "
+                  "the spelling of top-level entries in values(), has() of a key set to nothing, whether names only read show up in "
+                  "sectionNames(), write(name) without modification, explicit write() with shouldwrite = false, keys containing '/', "
+                  "values with line breaks, whether destroying an object opened on a file that gives a key twice rewrites it, CSV "
+                  "cells with line breaks, quoted or separator-containing column names, empty lines as rows, the column names of a "
+                  "file without header line, a quote in the middle of an unquoted cell, readAs on fields of another type, CmdArgs "
+                  "tokens '-', '--x', '-5', an option that needs a value without one, is() for other values than 1/true/yes/0/"
+                  "false/no. Trusted: TLC, clang ASan/LSan, POSIX read-back, strtod/snprintf in the harness.",
 }
 
 
@@ -54,16 +72,23 @@ def _count(cases):
 
 
 def _validate_logs(ctx, base, label, chunks):
-    """hand the executions logged by the replayer (one ndjson event each) to TLC"""
+    """hand the executions logged by the replayer to TLC: one ndjson event per execution (ini, csv, csvw, csvr) or per call
+    (a.*: the events of one session on an IniFile object stay together and in order)"""
     parts = sorted(glob.glob(base + ".*"))
     outs = [open(os.path.join(ctx.tmp, "%s-%d.ndjson" % (label.replace("/", "_"), k)), "w") for k in range(chunks)]
     n = 0
+    sessions = 0
+    k = 0
     for p in parts:
         with open(p) as f:
             for ln in f:
-                if ln.endswith("}\n"):
-                    outs[n % chunks].write(ln)
-                    n += 1
+                if not ln.endswith("}\n"):
+                    continue
+                if not ln.startswith('{"op":"a.') or ln.startswith('{"op":"a.new"'):
+                    k = (k + 1) % chunks                        # a new execution / session: next chunk
+                    sessions += 1
+                outs[k].write(ln)
+                n += 1
         os.unlink(p)
     files = []
     for o in outs:
@@ -74,13 +99,135 @@ def _validate_logs(ctx, base, label, chunks):
             os.unlink(o.name)
     if n == 0:
         raise vlib.HarnessError("%s: the replayer logged no execution" % label)
-    ctx.validate_traces("Trace_IniCsv", "Trace_IniCsv", files, label=label, timeout=ctx.pick(900, 5400))
+    ctx.validate_traces("Trace_IniCsv", "Trace_IniCsv", files, label=label, timeout=ctx.pick(900, 5400), parallel=len(files))
     ctx.evaluations += n
-    ctx.engines.append("%s: %d executions of the real code logged by the replayer, validated by TLC" % (label, n))
+    ctx.engines.append("%s: %d executions of the real code (%d events) logged by the replayer, validated by TLC" % (label, sessions, n))
     for f in files:
         if os.path.exists(f):
             os.unlink(f)
     return n
+
+
+def _lines(path):
+    with open(path) as f:
+        return sum(1 for _ in f)
+
+
+def core(ctx, lib, rep, rec):
+    """the two relations of the property: INI text + set() history, CSV table (as before the growth round), and the recorder"""
+    tier = "quick" if ctx.quick else "thorough"
+    cases = os.path.join(ctx.tmp, "c18.cases")
+    logbase = os.path.join(ctx.tmp, "c18log")
+    # coverage instrumentation makes TLC ~60x slower on this module (nested CHOOSE/set expressions): vacuity is checked
+    # on the emitted cases instead
+    ctx.model("MC_IniCsv", "MC_IniCsv_ini_" + tier, emit_to=cases, timeout=ctx.pick(900, 5400), xmx="4g", must_cover=False)
+    n = _count(cases)
+    if n["ini"] == 0 or n["ini_sets"] == 0 or n["ini_nofinal"] == 0:
+        raise vlib.HarnessError("MC_IniCsv_ini_%s: vacuous generation %s" % (tier, n))
+    renv = {"C18_LOG": logbase, "VERIF_TMP": ctx.tmp}
+    renv["C18_HALF_INI"] = "1"      # two of the four write paths per INI case, chosen by a hash of the case (both tiers)
+    if ctx.quick:
+        renv["C18_HALF_CSV"] = "1"  # two of the four CSV variants per table (all four in the thorough tier)
+    ctx.replay(rep, cases, label="R/IniCsv-ini", timeout=ctx.pick(900, 5400), env=renv, jobs=ctx.pick(8, 16))
+    os.unlink(cases)
+    _validate_logs(ctx, logbase, "V/IniCsv-ini-replayed", ctx.pick(8, 16))
+    ctx.model("MC_IniCsv", "MC_IniCsv_csv_" + tier, emit_to=cases, timeout=ctx.pick(900, 5400), xmx="4g", must_cover=False)
+    n2 = _count(cases)
+    if n2["csv"] == 0 or n2["csv_quoted"] == 0 or n2["csv_num"] == 0:
+        raise vlib.HarnessError("MC_IniCsv_csv_%s: vacuous generation %s" % (tier, n2))
+    ctx.replay(rep, cases, label="R/IniCsv-csv", timeout=ctx.pick(900, 5400), env=renv, jobs=ctx.pick(8, 16))
+    os.unlink(cases)
+    _validate_logs(ctx, logbase, "V/IniCsv-csv-replayed", ctx.pick(6, 16))
+    ctx.extra["generated"] = {**n, **{k: v for k, v in n2.items() if k.startswith("csv")}}
+    # random executions (half of them growth executions: sessions on an IniFile object, tables with options, foreign files)
+    files = ctx.record(rec, ctx.pick(8, 32), ctx.pick(2000, 6000), "V/IniCsv", env={"VERIF_TMP": ctx.tmp})
+    ctx.validate_traces("Trace_IniCsv", "Trace_IniCsv", files, label="V/IniCsv", timeout=ctx.pick(600, 3000))
+
+
+def growth(ctx, lib, rep):
+    """growth: the IniFile object, TabularDataFile with options, files of other tools (parts "api", "csvw", "csvr" of IniCsv.tla)"""
+    tier = "quick" if ctx.quick else "thorough"
+    logbase = os.path.join(ctx.tmp, "c18glog")
+    renv = {"C18_LOG": logbase, "VERIF_TMP": ctx.tmp}
+    if ctx.quick:
+        renv["C18_HALF_CSV"] = "1"  # one of the three ways of naming columns / passing rows per table (all in the thorough tier)
+    runs = (("MC_IniCsvG.tla", "MC_IniCsv_api_" + tier, "api"), ("MC_IniCsvG", "MC_IniCsv_csvw_" + tier, "csvw"),
+            ("MC_IniCsvG", "MC_IniCsv_csvr_" + tier, "csvr"))
+
+    def gen(run):
+        spec, cfg, part = run
+        out = os.path.join(ctx.tmp, "c18-%s.cases" % part)
+        # (one module, three concurrent TLC runs: vlib keys its metadir on the spelling of the module name)
+        # (one module, up to three concurrent TLC runs: vlib keys its metadir on pid, a counter and the name of the module as spelled,
+        #  the counter is not thread-safe - the core lane says "MC_IniCsv", this lane "MC_IniCsvG.tla" and "MC_IniCsvG")
+        ctx.model(spec, cfg, what="MC_IniCsv/" + cfg, emit_to=out, timeout=ctx.pick(900, 5400),
+                  xmx="3g", must_cover=False, workers=ctx.pick(4, 8))
+        return out
+
+    # (the api generator next to the two csv generators, those one after the other: three spellings would be needed otherwise)
+    with cf.ThreadPoolExecutor(2) as ex:
+        fa = ex.submit(gen, runs[0])
+        fb = ex.submit(lambda: [gen(runs[1]), gen(runs[2])])
+        outs = [fa.result()] + fb.result()
+    counts = {}
+    for (spec, cfg, part), out in zip(runs, outs):
+        counts[part] = _lines(out)
+        if counts[part] == 0:
+            raise vlib.HarnessError("%s: vacuous generation" % cfg)
+    # vacuity on the emitted cases: every kind of call / option / dialect must occur
+    with open(outs[0]) as f:
+        text = f.read()
+    for need in ('"m":"set"', '"m":"get"', '"m":"cur"', '"m":"asize"', '"m":"aget"', '"m":"write"', '"m":"writeTo"', '"m":"writeBad"',
+                 '"m":"reopen"', '"exists":false', '"sw":false', '"has":"u"', '"BomFirstLine"', '"ReadPersisted"', '"FailedWriteLines"'):
+        if need not in text:
+            raise vlib.HarnessError("MC_IniCsv_api_%s: no generated case contains %s" % (tier, need))
+    del text
+    with open(outs[1]) as f:
+        text = f.read()
+    for need in ('"sep":59', '"sep":9', '"q":true', '"arff":true', '"early":[true', '"readable":false', '"flush":2'):
+        if need not in text:
+            raise vlib.HarnessError("MC_IniCsv_csvw_%s: no generated case contains %s" % (tier, need))
+    del text
+    with open(outs[2]) as f:
+        text = f.read()
+    for need in ('"hdr":true', '"hdr":false', '"types":[105', '"unspec":true', '"LastRowNoNewline"', '"file":[239,187,191'):
+        if need not in text:
+            raise vlib.HarnessError("MC_IniCsv_csvr_%s: no generated case contains %s" % (tier, need))
+    del text
+    ctx.extra["generated_growth"] = counts
+    ctx.replay(rep, outs[0], label="R/IniCsv-api", timeout=ctx.pick(900, 5400), env=renv, jobs=ctx.pick(8, 16), args=["--case-timeout-ms", "120000"])
+    _validate_logs(ctx, logbase, "V/IniCsv-api-replayed", ctx.pick(3, 16))
+    merged = os.path.join(ctx.tmp, "c18-csvx.cases")
+    with open(merged, "w") as o:
+        for p in outs[1:]:
+            with open(p) as f:
+                for ln in f:
+                    o.write(ln)
+    ctx.replay(rep, merged, label="R/IniCsv-csvw+csvr", timeout=ctx.pick(900, 5400), env=renv, jobs=ctx.pick(8, 16),
+               args=["--case-timeout-ms", "120000"])
+    _validate_logs(ctx, logbase, "V/IniCsv-csvw+csvr-replayed", ctx.pick(3, 16))
+    for p in outs + [merged]:
+        os.unlink(p)
+
+
+def cmdargs(ctx, lib):
+    """growth: asl::CmdArgs (CmdArgs.tla): R over the token alphabet (argc/argv and the process's own arguments), V on recorded sessions"""
+    rep = vlib.build_harness(lib, "c18_cmdargs_replay", ["c18_cmdargs_replay.cpp"])
+    rec = vlib.build_harness(lib, "c18_cmdargs_record", ["c18_cmdargs_record.cpp"])
+    cases = os.path.join(ctx.tmp, "c18-cmdargs.cases")
+    long_ = os.path.join(ctx.tmp, "c18-cmdargs-long.cases")
+    ctx.model("MC_CmdArgs", "MC_CmdArgs_" + ("quick" if ctx.quick else "thorough"), emit_to=cases, timeout=ctx.pick(600, 3600), xmx="3g",
+              workers=ctx.pick(4, 8))
+    ctx.model("MC_CmdArgs.tla", "MC_CmdArgs_long", emit_to=long_, timeout=600, xmx="2g", workers=2, ignore_cov=("Query",))
+    with open(cases, "a") as o, open(long_) as f:
+        for ln in f:
+            o.write(ln)
+    os.unlink(long_)
+    ctx.replay(rep, cases, label="R/CmdArgs", timeout=ctx.pick(900, 3600), jobs=ctx.pick(6, 16),
+               env={"C18A_SELF_EVERY": str(ctx.pick(40, 25))}, args=["--batch", "1500", "--case-timeout-ms", "180000"])
+    os.unlink(cases)
+    files = ctx.record(rec, ctx.pick(1, 16), ctx.pick(8000, 20000), "V/CmdArgs")
+    ctx.validate_traces("Trace_CmdArgs", "Trace_CmdArgs", files, label="V/CmdArgs", timeout=ctx.pick(600, 3000))
 
 
 def run(ctx):
@@ -88,52 +235,50 @@ def run(ctx):
     rep = vlib.build_harness(lib, "c18_replay", ["c18_replay.cpp"])
     rec = vlib.build_harness(lib, "c18_record", ["c18_record.cpp"])
     tier = "quick" if ctx.quick else "thorough"
-    cases = os.path.join(ctx.tmp, "c18.cases")
-    logbase = os.path.join(ctx.tmp, "c18log")
-    # coverage instrumentation makes TLC ~60x slower on this module (nested CHOOSE/set expressions): vacuity is checked
-    # on the emitted cases instead
-    ctx.model("MC_IniCsv", "MC_IniCsv_ini_" + tier, emit_to=cases, timeout=ctx.pick(900, 5400), xmx="8g", must_cover=False)
-    n = _count(cases)
-    if n["ini"] == 0 or n["ini_sets"] == 0 or n["ini_nofinal"] == 0:
-        raise vlib.HarnessError("MC_IniCsv_ini_%s: vacuous generation %s" % (tier, n))
     ctx.exhaustive = True
     ctx.rule = ("one case per transition of the IniCsv generators (INI text + set() history + expected lookups; CSV table + "
                 "expected file text), executed 4 (INI: write/destructor/operator[]/write(name)) resp. 4+1 (CSV: int/double, cell-wise/"
                 "row-wise, data()/nextRow(), specification's text) times on the real classes (INI: two of the four per case, chosen "
-                "by a hash; CSV quick tier: two of the four); non-trivial = at least one set() / two cells; "
-                "distinct = distinct case lines (hash)")
-    renv = {"C18_LOG": logbase, "VERIF_TMP": ctx.tmp}
-    renv["C18_HALF_INI"] = "1"      # two of the four write paths per INI case, chosen by a hash of the case (both tiers)
-    if ctx.quick:
-        renv["C18_HALF_CSV"] = "1"  # two of the four CSV variants per table (all four in the thorough tier)
-    ctx.replay(rep, cases, label="R/IniCsv-ini", timeout=ctx.pick(900, 5400), env=renv)
-    os.unlink(cases)
-    _validate_logs(ctx, logbase, "V/IniCsv-ini-replayed", ctx.pick(8, 16))
-    ctx.model("MC_IniCsv", "MC_IniCsv_csv_" + tier, emit_to=cases, timeout=ctx.pick(900, 5400), xmx="8g", must_cover=False)
-    n2 = _count(cases)
-    if n2["csv"] == 0 or n2["csv_quoted"] == 0 or n2["csv_num"] == 0:
-        raise vlib.HarnessError("MC_IniCsv_csv_%s: vacuous generation %s" % (tier, n2))
-    ctx.replay(rep, cases, label="R/IniCsv-csv", timeout=ctx.pick(900, 5400), env=renv)
-    os.unlink(cases)
-    _validate_logs(ctx, logbase, "V/IniCsv-csv-replayed", ctx.pick(6, 16))
-    ctx.extra["generated"] = {**n, **{k: v for k, v in n2.items() if k.startswith("csv")}}
-    # random executions
-    files = ctx.record(rec, ctx.pick(8, 64), ctx.pick(2000, 12000), "V/IniCsv", env={"VERIF_TMP": ctx.tmp})
-    ctx.validate_traces("Trace_IniCsv", "Trace_IniCsv", files, label="V/IniCsv", timeout=ctx.pick(600, 3000))
+                "by a hash; CSV quick tier: two of the four); growth: one case per transition of the generators \"api\" (calls on an "
+                "IniFile object + expected results and const queries), \"csvw\" (options + table), \"csvr\" (file of another tool + "
+                "expected rows) and of CmdArgs.tla (command line + expected answers; command line + queries); non-trivial = at least "
+                "one set() / call / two cells / one token; distinct = distinct case lines (hash)")
+    # three independent lanes (thorough tier: two at a time - several TLC heaps next to other people's runs got this one killed)
+    with cf.ThreadPoolExecutor(ctx.pick(3, 2)) as ex:
+        lanes = [ex.submit(core, ctx, lib, rep, rec), ex.submit(growth, ctx, lib, rep), ex.submit(cmdargs, ctx, lib)]
+        err = None
+        for f in lanes:
+            try:
+                f.result()
+            except Exception as e:      # let the other lanes finish (their TLC / replayer processes would be orphaned)
+                err = err or e
+        if err:
+            raise err
     ctx.assumptions += [
-        "exhaustive within the constants of spec/MC_IniCsv_ini_%s.cfg and MC_IniCsv_csv_%s.cfg; beyond them only the recorded "
-        "random executions apply" % (tier, tier),
+        "exhaustive within the constants of spec/MC_IniCsv_{ini,csv,api,csvw,csvr}_%s.cfg and MC_CmdArgs_%s.cfg / MC_CmdArgs_long.cfg; "
+        "beyond them only the recorded random executions apply" % (tier, tier),
         "numbers are compared as their %.15g text (what the property states); decimal-to-double conversion itself is libc's",
         "INI texts are drawn from the language the property names (headers at column 0, identifier-like keys, '#'/';' comments); "
-        "values have no leading/trailing blanks",
+        "values have no line breaks; blanks around a value are not part of it",
+        "CSV files of other tools: numbers in the shape %.15g produces (with the dialect's decimal symbol), strings that no dialect takes "
+        "for a number, the dialect visible in the first line (what the documentation says is inferred)",
+        "CmdArgs: option names start with a letter; the program name is not part of the command line",
         "memory errors/leaks are observed by ASan/LSan on the executions, not decided by the model",
     ]
 
 
 def replay(path):
+    path = os.path.abspath(path)        # (TLC runs in spec/)
     lib = vlib.build_lib("asan")
     if os.path.basename(path).startswith("rec-") or path.endswith(".ndjson"):
+        if "CmdArgs" in os.path.basename(path):
+            return vlib.replay_recorded(path, lib, "c18_cmdargs_record", ["c18_cmdargs_record.cpp"], "Trace_CmdArgs", "Trace_CmdArgs")
         return vlib.replay_recorded(path, lib, "c18_record", ["c18_record.cpp"], "Trace_IniCsv", "Trace_IniCsv")
-    rep = vlib.build_harness(lib, "c18_replay", ["c18_replay.cpp"])
+    with open(path) as f:
+        head = f.read(4000)
+    if '"k":"args"' in head or '"k":"query"' in head:
+        rep = vlib.build_harness(lib, "c18_cmdargs_replay", ["c18_cmdargs_replay.cpp"])
+    else:
+        rep = vlib.build_harness(lib, "c18_replay", ["c18_replay.cpp"])
     r = subprocess.run([rep, "--single", path], env=vlib.run_env())
     return 1 if r.returncode == 1 else (0 if r.returncode == 0 else 2)
